@@ -526,6 +526,79 @@ func TestVerif_Forced(t *testing.T) {
 			r.Violation(key, idx, map[string]any{"scenario": "queued close", "variant": variant, "message": msg})
 		}
 	}
+	// The removal of a change iterator's registration is a committed write too, made by Close() (or by the runtime's cleanup of an
+	// unreachable iterator): when it is requested while a write transaction holds the table, it has to wait its turn, and the set of
+	// registrations after both have finished must be without the closed one (c05r8-2: a Close that edits the table entry without the
+	// table lock is overwritten by the open transaction's Commit). Observed through Metrics.DeleteTrackerCount, which the next Close
+	// reports, and through the open transaction's own write.
+	for variant := 0; variant < 4; variant++ {
+		idx++
+		if isReplay && !(replayPart == "forced" && replayIdx == idx) {
+			continue
+		}
+		rec := &trackerCountRec{}
+		db := statedb.New(statedb.WithMetrics(rec))
+		tabs := concw.NewTables(db, "k", 1)
+		var its []statedb.ChangeIterator[*concw.Row]
+		nIter := 1 + variant%2
+		for i := 0; i < nIter; i++ {
+			w := db.WriteTxn(tabs[0])
+			it, err := tabs[0].Changes(w)
+			w.Commit()
+			if err != nil {
+				t.Fatal(err)
+			}
+			its = append(its, it)
+		}
+		w := db.WriteTxn(tabs[0])
+		tabs[0].Insert(w, &concw.Row{ID: "x", V: 7})
+		closedC := make(chan struct{})
+		go func() { defer close(closedC); its[0].Close() }()
+		select { // the Close queues behind w (or, broken, returns at once); either way w commits afterwards
+		case <-closedC:
+		case <-time.After(30 * time.Millisecond):
+		}
+		if variant >= 2 {
+			w.Abort()
+		} else {
+			w.Commit()
+		}
+		key, msg := "", ""
+		select {
+		case <-closedC:
+		case <-time.After(vkit.Patient(20 * time.Second)):
+			key, msg = "blocked/close-after-writer", "an iterator Close() requested while a write transaction held the table has not returned 20 s after that transaction finished"
+		}
+		if key == "" {
+			// a further iterator is registered and closed: its Close reports the number of registrations left
+			w2 := db.WriteTxn(tabs[0])
+			it3, err := tabs[0].Changes(w2)
+			w2.Commit()
+			if err != nil {
+				t.Fatal(err)
+			}
+			it3.Close()
+			want := nIter - 1
+			if got := rec.get("k0"); got != want {
+				key, msg = "lost-write/tracker-removal", fmt.Sprintf("%d iterator(s) registered, the first closed while a write transaction held the table (then %s), a further one registered and closed: %d registrations are left, want %d - the committed removal was overwritten", nIter, map[bool]string{true: "aborted", false: "committed"}[variant >= 2], got, want)
+			}
+			wantV := int64(7)
+			if variant >= 2 {
+				wantV = 0
+			}
+			if v := concw.Get(db.ReadTxn(), tabs[0], "x"); v != wantV && key == "" {
+				key, msg = "lost-write/close-vs-writer", fmt.Sprintf("row x = %d after the writer finished and the queued Close ran, want %d", v, wantV)
+			}
+			for _, it := range its[1:] {
+				it.Close()
+			}
+		}
+		r.Count("probes", 1)
+		r.Case(vkit.NewHash().Str("close-vs-open-writer").Int(int64(variant)).Sum(), true)
+		if key != "" {
+			r.Violation(key, idx, map[string]any{"scenario": "close requested while a writer holds the table", "variant": variant, "message": msg})
+		}
+	}
 	for _, v := range ctl.Violations() {
 		r.Violation("monitor/"+v[:min(40, len(v))], 0, map[string]any{"message": v})
 	}
@@ -988,4 +1061,29 @@ func keys(m map[string]bool) []string {
 	}
 	sort.Strings(out)
 	return out
+}
+
+// trackerCountRec keeps the last Metrics.DeleteTrackerCount per table.
+type trackerCountRec struct {
+	statedb.NopMetrics
+	mu sync.Mutex
+	n  map[string]int
+}
+
+func (m *trackerCountRec) DeleteTrackerCount(t string, n int) {
+	m.mu.Lock()
+	if m.n == nil {
+		m.n = map[string]int{}
+	}
+	m.n[t] = n
+	m.mu.Unlock()
+}
+
+func (m *trackerCountRec) get(t string) int {
+	m.mu.Lock()
+	defer m.mu.Unlock()
+	if v, ok := m.n[t]; ok {
+		return v
+	}
+	return -1
 }
